@@ -17,8 +17,9 @@
 (*  Reduce, Difference, Recentre   the three steps of the code             *)
 (* Property formulas: ReducedInRange, ResidualInRange, ResidualCorrect     *)
 (* (= Residual(a + kN, b) = Residual(a, b): the result depends on the      *)
-(* angles only, never on turns or branch), WrapIdempotent, WrapRoundTrip,  *)
-(* ResidualAntisymmetric, ResidualRotates.                                 *)
+(* angles only, never on turns or branch), GroupKeepsAngles (action        *)
+(* property), WrapIdempotent, WrapRoundTrip, ResidualAntisymmetric,        *)
+(* ResidualRotates.                                                        *)
 (* Named deviations (as coded on the unchanged tree, used as spec mutants):*)
 (*   VecReduceAsCoded    vecWrapAngle2Pi only adds one turn to negatives   *)
 (*   VecRecentreAsCoded  vecWrapAngleNeg = (d + N/2) % N - N/2  (D12)      *)
@@ -210,12 +211,12 @@ EmitMean == pc = "m_done" =>
 Turns3  == -3..3
 Turns1  == -1..1
 Turns0  == {0}
-OffsQuick    == {-8, -1, 1, 12}
-OffsThorough == {-11, -8, -6, -1, 1, 2, 6, 12}
+OffsQuick    == {-8, 1, 12}
+OffsThorough == {-11, -8, -6, -1, 1, 2, 12}
 W0Quick      == {-3, 2}
-W0Thorough   == {-11, -3, -1, 0, 2}
+W0Thorough   == {-11, -3, 0, 2}
 W1All        == {1, 2}
 MTurnsQuick    == {-3}
-MTurnsThorough == {-3, -1, 1, 2}
+MTurnsThorough == {-3, 1, 2}
 RefCentresQuick == {0, 7}
 =============================================================================
